@@ -494,6 +494,43 @@ mod verif_bounded_mdk {
         run(label, "memory-backed", &create_test_mdk());
         run(label, "SQLite-backed", &MDK::new(MdkSqliteStorage::new_unencrypted(":memory:").unwrap()));
     }
+    // C03 "once a client has processed its own removal the group is inactive for it", when the removed member's LEAF is taken over by a
+    // member the same commit adds (F32): a Remove(bob) proposal is pending at the admin, the admin adds eve; bob's client applies the
+    // commit and must end Inactive, unable to send, and is handed nothing sent afterwards. Scope: bob memory-backed / SQLite-backed.
+    #[test]
+    fn removed_member_whose_leaf_is_reused_history() {
+        use tls_codec::Serialize as _;
+        let label = "mdk_backends_bounded.removed_member_whose_leaf_is_reused_history";
+        fn run<S: MdkStorageProvider>(label: &str, back: &str, b: &MDK<S>) {
+            let (ak, bk, ck, ek) = (Keys::generate(), Keys::generate(), Keys::generate(), Keys::generate());
+            let (a, c, e) = (create_test_mdk(), create_test_mdk(), create_test_mdk());
+            let res = a.create_group(&ak.public_key(), vec![create_key_package_event(b, &bk), create_key_package_event(&c, &ck)], create_nostr_group_config_data(vec![ak.public_key()])).unwrap();
+            let gid = res.group.mls_group_id.clone();
+            a.merge_pending_commit(&gid).unwrap();
+            let z = nostr::EventId::all_zeros();
+            let w = b.process_welcome(&z, &res.welcome_rumors[0]).unwrap(); b.accept_welcome(&w).unwrap();
+            let w = c.process_welcome(&z, &res.welcome_rumors[1]).unwrap(); c.accept_welcome(&w).unwrap();
+            let mut gc = c.load_mls_group(&gid).unwrap().unwrap();
+            let signer = c.load_mls_signer(&gc).unwrap();
+            let bob_idx = gc.members().find(|m| c.pubkey_for_member(m).unwrap() == bk.public_key()).unwrap().index;
+            let (msg, _) = gc.propose_remove_member(&c.provider, &signer, bob_idx).unwrap();
+            let prop = c.build_message_event(&gid, msg.tls_serialize_detached().unwrap()).unwrap();
+            let _ = a.process_message(&prop); let _ = b.process_message(&prop);
+            let add = a.add_members(&gid, &[create_key_package_event(&e, &ek)]).unwrap();
+            a.merge_pending_commit(&gid).unwrap();
+            let scen = format!("history ({back} bob): a Remove(bob) proposal is pending at admin alice ; alice adds eve (the commit removes bob and gives eve his leaf) ; bob is fed the commit ; alice sends a message");
+            if a.get_members(&gid).unwrap().contains(&bk.public_key()) { return; }   // the proposal was not swept into the commit: nothing to check
+            let _ = b.process_message(&add.evolution_event);
+            let after = a.create_message(&gid, create_test_rumor(&ak, "after bob's removal")).unwrap();
+            let got = matches!(b.process_message(&after), Ok(crate::messages::MessageProcessingResult::ApplicationMessage(_)));
+            let st = b.get_group(&gid).unwrap().map(|g| format!("{:?}", g.state));
+            if got { panic!("BOUNDED-COUNTEREXAMPLE {label}: scenario [{scen}] the removed member is handed the message"); }
+            if st.as_deref() != Some("Inactive") { panic!("BOUNDED-COUNTEREXAMPLE {label}: scenario [{scen}] the group is {st:?} (not Inactive) for the removed member"); }
+            if b.create_message(&gid, create_test_rumor(&bk, "x")).is_ok() { panic!("BOUNDED-COUNTEREXAMPLE {label}: scenario [{scen}] the removed member can still create a message for the group"); }
+        }
+        run(label, "memory-backed", &create_test_mdk());
+        run(label, "SQLite-backed", &MDK::new(MdkSqliteStorage::new_unencrypted(":memory:").unwrap()));
+    }
     // C05: a commit that a NON-admin member builds directly with the MLS library (bypassing the client-side admin gate) and that does
     // more than refresh its author's own key -- a group-data rewrite making the author an admin, a removal, an add -- is refused by
     // both bystanders and leaves them exactly as they were. Scope: one hostile member, three crafted commits, each delivered twice.
